@@ -477,7 +477,7 @@ class Summariser:
             # path (the call text is the value of that single evaluation, held
             # in locals): the same value was tested twice
             once = False
-            if not pure and raw is not None and not has_call(raw):
+            if not pure and (raw is None or not has_call(raw)):
                 texts = [show(x) for x in resolved.walk() if x.k == 'call']
                 ran = [show(e.e) for e in st.events if e.kind == 'call']
                 once = bool(texts) and all(ran.count(t) == 1 for t in texts)
